@@ -172,10 +172,33 @@ def check(run, replay=None):
     dist["timestamp_sweep_quick_pairs"] = n_sweep
     exhaustive_time = False
     if thorough:
-        full = ["TD %d 256 1 0 65536 1" % (k * 256) for k in range(256)]                         # all 2^32 pairs
-        tie_rel.digests(full, "timestamp decode/encode sweep (all 2^32)", False, td_locate)
+        # a larger direct sweep (extracted model evaluated on every pair): 2^16 dates x 1024 times + 1024 dates x 2^16 times
+        t1, st1 = rng.below(65536), 2 * rng.below(16) + 33
+        big = ["TD %d 1024 1 %d 1024 %d" % (k * 1024, t1, st1) for k in range(64)]
+        d1, sd1 = rng.below(65536), 2 * rng.below(16) + 33
+        big += ["TD %d 16 %d 0 65536 1" % ((d1 + 16 * k * sd1) & 0xFFFF, sd1) for k in range(64)]
+        tie_rel.digests(big, "timestamp decode/encode sweep (2^27 pairs)", False, td_locate)
+        n_sweep += 2 << 26
+        dist["timestamp_sweep_direct_pairs"] = 2 << 26
+        # all 2^32 pairs: implementation on every pair; model side from two 2^16 tables of the extracted
+        # model, justified by the proved theorem C18_time_sweep_separable (driver command TX)
+        full = ["TD %d 256 1 0 65536 1" % (k * 256) for k in range(256)]
+        io = par(implr, [[c] for c in full])
+        mo = par(model, [["TX %d 256" % (k * 256)] for k in range(256)])
+        for c, i, m in zip(full, io, mo):
+            if i != m:
+                k = next((k for k, (a, b) in enumerate(zip(i, m)) if a != b), 0)
+                lc = td_locate(c, k, "")
+                li = run_cmds(implr, [lc]); lm = run_cmds(model, [lc]); ls = run_cmds(model, [spec_cmd(lc)])
+                hit = next(((a, b, d) for a, b, d in zip(li, lm, ls) if a != b or a != d), None)
+                if hit and hit[0] != hit[2]:
+                    tie_rel.spec_bad.append(("timestamp decode/encode sweep (all 2^32)", lc + "  # line: " + hit[0].split(" ")[2], hit[0], hit[2], hit[1]))
+                elif hit:
+                    tie_rel.corr_bad.append(("timestamp decode/encode sweep (all 2^32)", lc, hit[0], hit[1]))
+                else:
+                    tie_rel.corr_bad.append(("timestamp sweep: table-driven model digest (TX) differs from the implementation", c, "digest line %d" % k, "listing agrees"))
         n_sweep += 1 << 32
-        dist["timestamp_sweep_all_pairs"] = 1 << 32
+        dist["timestamp_sweep_all_pairs_impl_vs_model_tables"] = 1 << 32
         exhaustive_time = True
     # boundary pairs, listed line by line (with the spec)
     bd = [0, 1, 31, 32, 33, 0x1FF, 0x200, 0x21, 0x3F, 0x1E0, 0x1FF, 0x1E1, 0xFE00, 0xFE21, 0xFF9F, 0xFFFF, 0x0020, 0x0001, 0x5821]
@@ -310,7 +333,7 @@ def check(run, replay=None):
         evaluations=evaluations,
         distinct_nontrivial=len(set(tl)) + len(set(te)) + len(set(tc_all)) + len(set(es)) + len(set(ep)) + n_enum + len({tuple(s) for s in rnames}) + (n_sweep if not thorough else 1 << 32),
         rule="timestamp pairs by index (%s) + boundary pairs; encode over the boundary product of the six u8 fields + random; calendar: boundary product + genuine dates 1980-01-01..2107-12-31 from python's datetime (%s); entries: all 256 attribute bytes x boundary clusters/sizes/names/stamps (%s) + random; raw slots of length 0..40; names: every string of length <= %d over a 24-symbol class alphabet + structured random strings up to length 13. distinct = distinct command lines / index values" % (
-            "all 2^32 (date,time) pairs" if thorough else "all 2^16 dates x 64 times + 64 dates x all 2^16 times",
+            "all 2^32 (date,time) pairs on the implementation against the model tabulated per field (theorem C18_time_sweep_separable) + 2^27 pairs evaluated directly on the extracted model" if thorough else "all 2^16 dates x 64 times + 64 dates x all 2^16 times",
             "every day, 3 times of day" if thorough else "a sample of 4000 days",
             "full product with 3 sizes" if thorough else "sampled", 5 if thorough else 4),
         exhaustive=bool(exhaustive_time),
